@@ -285,7 +285,7 @@ uint32_t adfNormalSum ( const uint8_t * const buf,
     for(i=0; i < (bufLen/4); i++)
         if ( i != (offset/4) )       /* old chksum */
             newsum+=Long(buf+i*4);
-    newsum = (uint32_t) ( - (int32_t) newsum );	/* WARNING */
+    newsum = 0U - newsum;      /* two's complement without signed overflow */
 
     return(newsum);
 }
